@@ -129,6 +129,26 @@ CHECKS = {
                     thorough=[dict(profile="ty2", opts=dict(roundtrip=True)), dict(profile="join2", opts=dict(roundtrip=True)),
                               dict(profile="union3", opts=dict(roundtrip=True)), dict(profile="agg3", opts=dict(roundtrip=True))]),
     ),
+    "C19": dict(
+        level="exploration",
+        clauses={"dialect-internal", "dialect-noselect", "dialect-nondet", "impl-internal"},
+        phases=dict(quick=[dict(kind="impls", max_arity=2),
+                           dict(profile="core2", backends=("sqlite", "postgres", "mssql")),
+                           dict(profile="agg3", backends=("sqlite", "postgres", "mssql")),
+                           dict(profile="wins3", backends=("sqlite", "postgres", "mssql")),
+                           dict(profile="join2", backends=("sqlite", "postgres", "mssql")),
+                           dict(profile="union2", backends=("sqlite", "postgres", "mssql"))],
+                    thorough=[dict(kind="impls", max_arity=2),
+                              dict(profile="core3", backends=("sqlite", "postgres", "mssql")),
+                              dict(profile="agg3", backends=("sqlite", "postgres", "mssql")),
+                              dict(profile="win3", backends=("sqlite", "postgres", "mssql")),
+                              dict(profile="ty2", backends=("sqlite", "postgres", "mssql")),
+                              dict(profile="fn1", backends=("sqlite", "postgres", "mssql")),
+                              dict(profile="str1", backends=("sqlite", "postgres", "mssql")),
+                              dict(profile="cast1", backends=("sqlite", "postgres", "mssql")),
+                              dict(profile="join3", backends=("sqlite", "postgres", "mssql")),
+                              dict(profile="union3", backends=("sqlite", "postgres", "mssql"))]),
+    ),
     "C20": dict(
         level="model_checking",
         clauses={"target", "dtype-roundtrip", "roundtrip-data"},
@@ -284,6 +304,42 @@ MANIFEST_TEXT = {
              "metadata and every pooled expression is compared, inputs are re-exported and must equal their first export, build_query twice must "
              "agree, source frames / SQL tables are checksummed, and all results must still equal the specification (HeapAppendOnly, ObsPure on the model).",
         note=TRUST, technique="TLA+ spec (append-only heap, pure observations) + TLC generation, replay with object sharing and fingerprint oracle"),
+    "C03": dict(
+        text="Operator tables: over a source holding every pair of the integer test values (null, zero, negatives, equal operands), the boolean "
+             "pairs and exact binary fractions, TLC computes the complete value table of every element-wise operator in every syntactic form "
+             "(column-column, column-literal, literal-column, nested, case expressions, horizontal functions up to 5 arguments); both back ends "
+             "are compared with it cell by cell (cells outside the documented fragment are UNDEF and skipped). The algebraic laws of the value "
+             "language (truncating division, Kleene logic, ordering markers) are model-checked separately so that the oracle itself is guarded.",
+        note=TRUST, technique="TLA+ spec + TLC exhaustive generation, replay on real code against predicted observations; TLC-checked algebraic laws of the oracle", engine="functions"),
+    "C13": dict(
+        text="Overload resolution is specified order-free (unique minimum of summed lexicographic cost over all instantiations) over a catalogue "
+             "and cost graph extracted from the code at check time; TLC evaluates it for every operator and every argument tuple over the 48-type "
+             "universe (arity <= 2 quick, <= 3 thorough) together with the uniformity clauses (sized types, const arguments); the code's "
+             "Operator.return_type and ColFn construction outcomes are compared tuple by tuple, and re-run under other hash seeds and reversed "
+             "declaration order.",
+        note=TRUST + " The catalogue is extracted, so a harmless catalogue extension moves code and specification together; the meaning is fixed in Resolve.tla.",
+        technique="TLA+ order-free definition + TLC total enumeration, code outcomes compared for every tuple", engine="types"),
+    "C15": dict(
+        text="Every documented equivalence is a pair of move sequences started from the same table; TLC instantiates them with the alphabets, checks "
+             "the invariant EquivHolds on the model, and both sides are executed on both back ends and compared with the specification and with each other.",
+        note=TRUST, technique="TLA+ spec + TLC exhaustive generation, replay on real code against predicted observations; equivalence invariant on the model"),
+    "C17": dict(
+        text="Acceptance: TLC emits the documented cast table over the type universe (ok / reject / unspecified) and every Cast construction - direct "
+             "and through a lambda column, where the check is deferred - is compared with it. Values: every documented cast on boundary values "
+             "(negative fractions, zero, numerals with sign and leading zeros, nulls, dates with and without time, constant operands) on both back ends.",
+        note=TRUST, technique="TLA+ spec + TLC exhaustive generation, replay on real code against predicted observations; cast matrix enumeration", engine="functions"),
+    "C18": dict(
+        text="Strings are sequences of code points in the specification, so every SQL / LIKE / regex metacharacter is ordinary data; every "
+             "pattern over the alphabet (single characters, digraphs, injection-shaped strings) is used as a python literal in every operator "
+             "position against column data holding the same characters; both back ends must equal the specification.",
+        note=TRUST + " Lower-case letters only (SQLite LIKE is ASCII-case-insensitive, which the library documents with a warning).",
+        technique="TLA+ spec + TLC exhaustive generation, replay on real code against predicted observations", engine="functions"),
+    "C19": dict(
+        text="The specification is used as a program generator: every generated pipeline is bound to offline engines of SQLite, PostgreSQL and SQL Server "
+             "(stub DBAPI modules) and build_query is called twice - the outcome must be one SELECT text, twice the same, or NotSupportedError / "
+             "SubqueryError; for every operator overload accepted by the type checker get_impl on every backend class incl. Polars must return a "
+             "callable or raise NotSupportedError. No oracle for the SQL text: exploration level.",
+        note=TRUST + " DuckDB and DB2 plug-ins are not importable in this sandbox.", technique="TLC-generated programs compiled on three dialects; outcome-class oracle"),
     "C11": dict(
         text="For every table of every TLC-generated behaviour, columns(), iteration, len, `in` and dir are compared with the exported frame "
              "on both back ends; the metadata layer of the specification predicts the same names.",
